@@ -5,7 +5,7 @@
 // scripted per-datagram fault schedule (drop / dup / delay / flip / trunc, both directions, handshake
 // included). One op line = one complete scenario; its result is the canonical observation.
 //
-//	run cl=<plain|chrome> v=<1|2> seed=<n> sc=<nc>,<ns>,<nd>,<maxKiB> faults=<dir>:<idx>:<kind>:<arg>,…|- [x=<cwKiB>,<one>,<boStart>,<boDur>,<dgi>] [y=<idleMs>,<ka>,<quietMs>,<who>,<outDir>,<outMs>]
+//	run cl=<plain|chrome|firefox> v=<1|2> seed=<n> sc=<nc>,<ns>,<nd>,<maxKiB> faults=<dir>:<idx>:<kind>:<arg>,…|- [x=<cwKiB>,<one>,<boStart>,<boDur>,<dgi>] [y=<idleMs>,<ka>,<quietMs>,<who>,<outDir>,<outMs>] [b=<kinds>,<KiB>,<lagMs>]
 //	 => dial=<err> c2s=<id>:<len>/<want>:<sha8>/<wantsha8>:<pfx>:<err>;… s2c=… dg=<got>/<sent>:<dups>:<bad> t=<ms> [p2=<obs> conn=<client ctx err>,<server ctx err>]
 //
 // y= (round 4) is a second phase on the same connection: both endpoints negotiate the idle timeout idleMs (ka=1: with
@@ -14,6 +14,15 @@
 // very moment the path is dead for outMs in the direction(s) outDir (0 none, 1 only the direction TOWARDS the writer,
 // 2 both). The observation adds what the phase-2 reader got and whether both connections are still alive well after
 // the outage.
+//
+// b= (round 5) replaces the sc= streams by BULK transfers that exceed the stream-level receive windows, one stream per
+// selected kind (bit 1: bidirectional opened by the client, 2: bidirectional opened by the server, 4: unidirectional
+// client->server, 8: unidirectional server->client); every bidirectional stream carries KiB (+ up to 1499 bytes) in
+// BOTH directions, and every reader starts reading only lagMs after it got the stream (a sender that is ahead of the
+// application by whatever the advertised window allows). Spec-driven clients (Chrome: all stream windows equal;
+// Firefox: 12 MiB for streams it opens, 1 MiB for the server's and for unidirectional ones) advertise their windows
+// in the QUICSpec, so the window each stream kind really gets has to be the advertised one: a smaller one is a
+// spurious FLOW_CONTROL_ERROR, a larger one a transfer that stalls at the advertised limit.
 //
 // Everything about the scenario (stream sizes, contents, Write/Read chunkings) is derived from `seed`.
 // Nothing here is a proof: it exercises the liveness sentence of the property and feeds the monitors.
@@ -70,6 +79,10 @@ type scenario struct {
 	who     int // phase-2 writer: 0 client, 1 server
 	outDir  int // 0 no outage, 1 the direction towards the writer is dead, 2 both directions are dead
 	outMs   int // ... for outMs ms from the moment of the phase-2 write
+	// round 5 (bulk transfers beyond the stream windows on every stream kind); bKinds = 0: off
+	bKinds int // bit 1 client-bidi, 2 server-bidi, 4 client-uni, 8 server-uni
+	bKiB   int
+	bLagMs int
 }
 
 func (s scenario) String() string {
@@ -88,13 +101,16 @@ func (s scenario) String() string {
 	if s.hasY {
 		out += fmt.Sprintf(" y=%d,%d,%d,%d,%d,%d", s.idleMs, s.ka, s.quietMs, s.who, s.outDir, s.outMs)
 	}
+	if s.bKinds != 0 {
+		out += fmt.Sprintf(" b=%d,%d,%d", s.bKinds, s.bKiB, s.bLagMs)
+	}
 	return out
 }
 
 func parseScenario(op string) (scenario, bool) {
 	var s scenario
 	f := strings.Fields(op)
-	if len(f) < 6 || len(f) > 8 || f[0] != "run" {
+	if len(f) < 6 || len(f) > 9 || f[0] != "run" {
 		return s, false
 	}
 	kv := map[string]string{}
@@ -133,6 +149,14 @@ func parseScenario(op string) (scenario, bool) {
 		s.hasY = true
 		if s.idleMs < 1000 || s.idleMs > 20000 || s.ka < 0 || s.ka > 1 || s.quietMs < 0 || s.quietMs > 60000 ||
 			s.who < 0 || s.who > 1 || s.outDir < 0 || s.outDir > 2 || s.outMs < 0 || s.outMs > 20000 {
+			return s, false
+		}
+	}
+	if b, ok := kv["b"]; ok {
+		if n, _ := fmt.Sscanf(b, "%d,%d,%d", &s.bKinds, &s.bKiB, &s.bLagMs); n != 3 {
+			return s, false
+		}
+		if s.bKinds < 1 || s.bKinds > 15 || s.bKiB < 1 || s.bKiB > 16384 || s.bLagMs < 0 || s.bLagMs > 5000 || s.hasY || s.nc+s.ns+s.nd != 0 {
 			return s, false
 		}
 	}
@@ -298,16 +322,35 @@ func fmtObs(o []streamObs) string {
 	return strings.Join(parts, ";")
 }
 
+// specFor: the QUICSpec of a spec-driven client kind (nil, true for the plain client).
+func specFor(client string) (*quic.QUICSpec, bool) {
+	var id quic.QUICID
+	switch client {
+	case "plain":
+		return nil, true
+	case "chrome":
+		id = quic.QUICChrome_115_IPv4
+	case "firefox":
+		id = quic.QUICFirefox_116
+	default:
+		return nil, false
+	}
+	sp, err := quic.QUICID2Spec(id)
+	if err != nil {
+		return nil, false
+	}
+	return &sp, true
+}
+
 func runScenario(t *testing.T, sc scenario) (res string) {
+	if sc.bKinds != 0 {
+		return runBulk(t, sc)
+	}
 	synctest.Test(t, func(t *testing.T) {
-		var spec *quic.QUICSpec
-		if sc.client == "chrome" {
-			sp, err := quic.QUICID2Spec(quic.QUICChrome_115_IPv4)
-			if err != nil {
-				res = "setup-error spec"
-				return
-			}
-			spec = &sp
+		spec, ok := specFor(sc.client)
+		if !ok {
+			res = "setup-error spec"
+			return
 		}
 		ver := quic.Version1
 		if sc.version == 2 {
@@ -532,6 +575,183 @@ func runScenario(t *testing.T, sc scenario) (res string) {
 	return res
 }
 
+// bulkData: what stream kind `kind` carries in direction `dir` (0 c2s, 1 s2c): KiB..KiB+1499 bytes.
+func bulkData(seed uint64, kind, dir, KiB int) ([]byte, *vh.Rand) {
+	r := vh.NewRand(seed ^ uint64(kind+1)<<36 ^ uint64(dir+1)<<44 ^ 0x6a09e667f3bcc909)
+	n := KiB*1024 + int(r.Range(0, 1499))
+	data := make([]byte, n)
+	x := r.U64()
+	for i := 0; i+8 <= n; i += 8 {
+		x = x*6364136223846793005 + 1442695040888963407
+		binary.LittleEndian.PutUint64(data[i:], x)
+	}
+	for i := n &^ 7; i < n; i++ {
+		data[i] = byte(x >> (8 * uint(i&7)))
+	}
+	return data, r
+}
+
+// runBulk: the b= scenarios (see the package comment).
+func runBulk(t *testing.T, sc scenario) (res string) {
+	synctest.Test(t, func(t *testing.T) {
+		spec, ok := specFor(sc.client)
+		if !ok {
+			res = "setup-error spec"
+			return
+		}
+		ver := quic.Version1
+		if sc.version == 2 {
+			ver = quic.Version2
+		}
+		conf := &quic.Config{Versions: []quic.Version{ver}}
+		env, err := e2e.Start(e2e.Setup{Spec: spec, Faults: sc.faults, ServerConf: conf, ClientConf: conf})
+		if err != nil {
+			res = "setup-error start"
+			return
+		}
+		start := time.Now()
+		deadline := start.Add(runDeadline)
+		ctx, cancel := context.WithDeadline(context.Background(), deadline)
+		var (
+			mu       sync.Mutex
+			c2s, s2c []streamObs
+			werrs    []string
+			wg       sync.WaitGroup
+		)
+		note := func(err error, what string) {
+			if err != nil {
+				mu.Lock()
+				werrs = append(werrs, what+"="+errClass(err))
+				mu.Unlock()
+			}
+		}
+		lag := time.Duration(sc.bLagMs) * time.Millisecond
+		// one end of one stream: write what this side sends on it (w != nil), read what the other side sends (rd != nil)
+		serve := func(kind int, fromClient bool, w writer, rd reader, id int64) {
+			sendDir, recvDir := 1, 0 // this side is the server
+			if fromClient {
+				sendDir, recvDir = 0, 1
+			}
+			if w != nil {
+				wg.Add(1)
+				go func() {
+					defer wg.Done()
+					data, r := bulkData(sc.seed, kind, sendDir, sc.bKiB)
+					who := "s-write"
+					if fromClient {
+						who = "c-write"
+					}
+					note(writeAll(w, data, r, deadline, false), who)
+				}()
+			}
+			if rd != nil {
+				wg.Add(1)
+				go func() {
+					defer wg.Done()
+					want, r := bulkData(sc.seed, kind, recvDir, sc.bKiB)
+					time.Sleep(lag)
+					o := readAll(rd, id, want, vh.NewRand(r.U64()^1), deadline)
+					mu.Lock()
+					if recvDir == 0 {
+						c2s = append(c2s, o)
+					} else {
+						s2c = append(s2c, o)
+					}
+					mu.Unlock()
+				}()
+			}
+		}
+		// the kind of an accepted stream follows from its id (RFC 9000 2.1): bit 0 initiator, bit 1 unidirectional
+		endpoint := func(c *quic.Conn, isClient bool) {
+			ownBidi, ownUni, peerBidi, peerUni := 2, 8, 1, 4
+			tag := "s"
+			if isClient {
+				ownBidi, ownUni, peerBidi, peerUni = 1, 4, 2, 8
+				tag = "c"
+			}
+			if sc.bKinds&ownBidi != 0 {
+				s, err := c.OpenStreamSync(ctx)
+				if err != nil {
+					note(err, tag+"-open")
+				} else {
+					serve(ownBidi, isClient, s, s, int64(s.StreamID()))
+				}
+			}
+			if sc.bKinds&ownUni != 0 {
+				s, err := c.OpenUniStreamSync(ctx)
+				if err != nil {
+					note(err, tag+"-open")
+				} else {
+					serve(ownUni, isClient, s, nil, int64(s.StreamID()))
+				}
+			}
+			if sc.bKinds&peerBidi != 0 {
+				wg.Add(1)
+				go func() {
+					defer wg.Done()
+					s, err := c.AcceptStream(ctx)
+					if err != nil {
+						note(err, tag+"-accept")
+						return
+					}
+					serve(peerBidi, isClient, s, s, int64(s.StreamID()))
+				}()
+			}
+			if sc.bKinds&peerUni != 0 {
+				wg.Add(1)
+				go func() {
+					defer wg.Done()
+					s, err := c.AcceptUniStream(ctx)
+					if err != nil {
+						note(err, tag+"-accept")
+						return
+					}
+					serve(peerUni, isClient, nil, s, int64(s.StreamID()))
+				}()
+			}
+		}
+		serverConn := make(chan *quic.Conn, 1)
+		wg.Add(1)
+		go func() {
+			defer wg.Done()
+			c, err := env.Listener.Accept(ctx)
+			if err != nil {
+				note(err, "accept")
+				serverConn <- nil
+				return
+			}
+			serverConn <- c
+			endpoint(c, false)
+		}()
+		c, derr := env.Dial(ctx)
+		if derr == nil {
+			endpoint(c, true)
+		}
+		wg.Wait()
+		elapsed := time.Since(start)
+		sconn := <-serverConn
+		time.Sleep(300 * time.Millisecond)
+		cancel()
+		if c != nil {
+			c.CloseWithError(0, "")
+		}
+		if sconn != nil {
+			sconn.CloseWithError(0, "")
+		}
+		env.Close()
+		synctest.Wait()
+		mu.Lock()
+		defer mu.Unlock()
+		sort.Strings(werrs)
+		we := "-"
+		if len(werrs) > 0 {
+			we = strings.Join(werrs, ",")
+		}
+		res = fmt.Sprintf("dial=%s c2s=%s s2c=%s dg=0/0:0:0 werr=%s t=%d", errClass(derr), fmtObs(c2s), fmtObs(s2c), we, elapsed.Milliseconds())
+	})
+	return res
+}
+
 // runPhase2: silence, then one more unidirectional stream from `who` while the path (towards the writer, or both
 // ways) is dead for outMs; finally, well after the outage, are both connections still alive?
 func runPhase2(sc scenario, cconn, sconn *quic.Conn, setOutage func([2]bool, time.Duration), note func(error, string)) string {
@@ -694,6 +914,65 @@ func buildHdrEnum(seed uint64, allBits bool) []scenario {
 	return out
 }
 
+// bulk transfers (round 5, b=): an enumerated cycle, most exposing first. Every run starts at the beginning, so that a
+// quick run always contains: every stream kind in both directions with more bytes than the 1 MiB windows of the Firefox
+// parrot (prompt and late readers), more than Chrome's 6 MiB and more than Firefox's 12 MiB windows, and the plain client.
+var bulkEnum struct {
+	once  sync.Once
+	queue []scenario
+	pos   int
+}
+
+const bulkFirst = 7 // this many entries of the cycle are part of every run
+
+func buildBulkEnum(seed uint64, thorough bool) []scenario {
+	r := vh.NewRand(seed ^ 0x9fb21c651e98df25)
+	var out []scenario
+	add := func(cl string, v, kinds, KiB, lag int, fs ...e2e.Fault) {
+		out = append(out, scenario{client: cl, version: v, seed: r.U64() >> 1, bKinds: kinds, bKiB: KiB, bLagMs: lag, faults: fs})
+	}
+	add("firefox", 1, 15, 1100, 0)
+	add("firefox", 1, 15, 1100, 600)
+	add("chrome", 1, 15, 6400, 1200)
+	add("plain", 1, 15, 1100, 300)
+	add("firefox", 2, 15, 12900, 0)
+	add("firefox", 1, 3, 12900, 2000)
+	add("chrome", 2, 15, 1100, 0)
+	for _, cl := range []string{"firefox", "chrome", "plain"} {
+		for _, kinds := range []int{1, 2, 4, 8, 3, 12, 15} {
+			for _, lag := range []int{0, 150, 900} {
+				KiB := []int{600, 1100, 2300}[r.Intn(3)]
+				var fs []e2e.Fault
+				if r.Chance(50) {
+					k := []string{"drop", "dup", "delay"}[r.Intn(3)]
+					fs = []e2e.Fault{{Dir: e2e.Dir(r.Intn(2)), Index: int(r.Range(4, 400)), Kind: k, Arg: faultArg(k, r) % 400}}
+				}
+				add(cl, 1+r.Intn(2), kinds, KiB, lag, fs...)
+			}
+		}
+	}
+	if thorough {
+		for _, cl := range []string{"firefox", "chrome"} {
+			for _, kinds := range []int{1, 2, 4, 8} {
+				for _, lag := range []int{0, 2500} {
+					add(cl, 1+r.Intn(2), kinds, []int{6400, 12900}[r.Intn(2)], lag)
+				}
+			}
+		}
+	}
+	return out
+}
+
+func nextBulk(thorough bool) string {
+	bulkEnum.once.Do(func() { bulkEnum.queue = buildBulkEnum(vh.EnvU64("VH_SEED", 1), thorough) })
+	s := bulkEnum.queue[bulkEnum.pos%len(bulkEnum.queue)]
+	if bulkEnum.pos >= len(bulkEnum.queue) { // later rounds of the cycle: other contents and chunkings
+		s.seed ^= uint64(bulkEnum.pos) * 0x9e3779b97f4a7c15 >> 1
+	}
+	bulkEnum.pos++
+	return s.String()
+}
+
 func (rn *runner) GenOp(r *vh.Rand, i int) string {
 	thorough := os.Getenv("VH_TIER") == "thorough"
 	if thorough {
@@ -710,7 +989,12 @@ func (rn *runner) GenOp(r *vh.Rand, i int) string {
 		hdrEnum.pos++
 		return s.String()
 	}
-	switch r.Pick(42, 14, 14, 14, 16) {
+	if i == 2 && bulkEnum.pos < bulkFirst {
+		return nextBulk(thorough)
+	}
+	switch r.Pick(42, 14, 14, 14, 16, 9) {
+	case 5:
+		return nextBulk(thorough)
 	case 4:
 		return genIdle(r).String()
 	case 1: // connection-window limited: several streams, each handed over with one Write + Close
@@ -738,7 +1022,7 @@ func (rn *runner) GenOp(r *vh.Rand, i int) string {
 		return sc.String()
 	}
 	// random schedule: 0..4 faults among the first 30 datagrams of either direction
-	sc := scenario{client: []string{"plain", "chrome"}[r.Pick(65, 35)], version: 1 + r.Pick(60, 40), seed: r.U64() >> 1,
+	sc := scenario{client: []string{"plain", "chrome", "firefox"}[r.Pick(55, 30, 15)], version: 1 + r.Pick(60, 40), seed: r.U64() >> 1,
 		nc: int(r.Range(1, 3)), ns: int(r.Range(1, 3)), nd: int(r.Range(0, 6)), maxKiB: []int{8, 60, 200}[r.Pick(40, 40, 20)]}
 	nf := r.Pick(10, 30, 30, 20, 10)
 	seen := map[[2]int]bool{}
